@@ -23,5 +23,12 @@ PROPS["C09"] = {
     "technique": TECH, "explanation": "", "assumptions": [],
 }
 
+PROPS["C20"] = {
+    "level": "proof", "bounded": None,
+    "level_text": "host_is_trusted / get_host and the debugger gates verified against contracts",
+    "level_note": "Trusted: idna codec as an abstract partial function, pyvc encoding, z3/cvc5.",
+    "technique": TECH, "explanation": "", "assumptions": [],
+}
+
 # properties whose check is not built yet (kept current while the framework grows)
 PENDING = {}
